@@ -120,7 +120,11 @@ Clauses(e) ==
                     <<"complete-main", ~e.done.main_exc>>,
                     <<"complete-seat-threads", e.done.seats_done /\ ~e.done.seats_exc>>,
                     <<"complete-threads-when-run-returns", e.done.seats_done_at_return>>,
-                    <<"clients-complete", ~e.done.clients_exc>> >>
+                    <<"clients-complete", ~e.done.clients_exc>>,
+                    \* C11: no client program stops following the session before it is told
+                    \* that the session is over
+                    <<"clients-complete-until-end-of-session",
+                      "clients_left_early" \in DOMAIN e.done => ~e.done.clients_left_early>> >>
      \* when every board was decided to its end the expected streams, log and
      \* replicas are defined, whatever else went wrong
      IN IF ~DecsComplete(e, Len(e.boards))
